@@ -136,6 +136,12 @@ ARG_TYPES = [
     "Uint128",
     "Pt",
     "Kd",
+    "i64",
+    "Vec<String>",
+    "Option<Pt>",
+    "Vec<Pt>",
+    "Option<Binary>",
+    "Option<Vec<Coin>>",
 ]
 RET_TYPES = ["String", "u64", "QResp", "bool", "Vec<u32>"]
 
@@ -1665,6 +1671,20 @@ def family_f2(rng):
                 tags=("override", "regular"),
             )
         )
+    # generic contracts with overrides: entry_points(generics<..>) next to override_entry_point
+    for n, sub in enumerate([["sudo"], ["exec", "query"], ["migrate", "reply"], []]):
+        hs = [
+            Handler("instantiate", "instantiate", [Arg("first", "T")]),
+            Handler("exec", "go"),
+            Handler("exec", "put", [Arg("item", "T")]),
+            Handler("query", "probe", [Arg("x", "u32")], ret="u64", failarg=True),
+            Handler("query", "echo", [Arg("item", "T")], ret="T"),
+            Handler("sudo", "nudge", [Arg("n", "u32")]),
+            Handler("migrate", "migrate", [Arg("item", "T")]),
+        ]
+        if n % 2 == 0:
+            hs.append(Handler("reply", "on_done", reply=Reply([], "always", payload_raw=True, payload=[Arg("payload", "Binary")])))
+        cs.append(Contract("og" + "abcd"[n], "f2", hs, generic=["Pt", "Kd", "String", "u64"][n], err=["own", "std"][n % 2], overrides=sub, replies=(n % 2 == 0), tags=("override", "regular")))
     return [], cs
 
 
@@ -1721,6 +1741,28 @@ def family_f5(rng):
     cs.append(Contract("cc", "f5", std_handlers(rng, migrate=False), uses=[Use(alpha), Use(explicit), Use(onlyx, err="std")], err="own", custom_chain=True, tags=T))
     cs.append(Contract("cd", "f5", std_handlers(rng) + alw(), err="own", custom_chain=True, replies=True, tags=T))
     cs.append(Contract("ce", "f5", std_handlers(rng, sudo=False) + alw(), uses=[Use(explicit, err="own"), Use(kq, err="std"), Use(beta)], err="std", custom_chain=True, replies=True, tags=T))
+    cs.append(
+        Contract(
+            "cf",
+            "f5",
+            [
+                Handler("instantiate", "instantiate", [Arg("first", "T")]),
+                Handler("exec", "go"),
+                Handler("exec", "put", [Arg("item", "T"), Arg("n", "u8")]),
+                Handler("query", "probe", [Arg("x", "u32")], ret="u64", failarg=True),
+                Handler("query", "echo", [Arg("item", "T")], ret="T"),
+                Handler("sudo", "nudge"),
+                Handler("migrate", "migrate"),
+            ]
+            + alw(),
+            uses=[Use(alpha), Use(kq)],
+            generic="Pt",
+            err="own",
+            custom_chain=True,
+            replies=True,
+            tags=T,
+        )
+    )
     return [alpha, explicit, beta, kq, km, eps, onlyx], cs
 
 
